@@ -183,3 +183,151 @@ Proof.
     split; [reflexivity|]. split; [exact I3|]. split; [rewrite C3, C1; reflexivity|].
     rewrite W3, W1, W0. reflexivity.
 Qed.
+
+(* the login table on exactly the replies consumed: None when the list ends before the sequence does *)
+Definition tail_opt (tls : bool) (t : ttype) (r : reply) (ys : list reply) : option (list exchange) :=
+  if is_negative r then Some [] else
+  let type_step (zs : list reply) : option (list exchange) :=
+    match zs with z :: _ => Some [(TYPE_ ++ SP :: type_arg t, z)] | [] => None end in
+  if tls then
+    match ys with
+    | y3 :: ys3 =>
+        if is_negative y3 then Some [(PBSZ_0, y3)] else
+        match ys3 with
+        | y4 :: ys4 => if is_negative y4 then Some [(PBSZ_0, y3); (PROT_P, y4)]
+                       else option_map (fun l => (PBSZ_0, y3) :: (PROT_P, y4) :: l) (type_step ys4)
+        | [] => None
+        end
+    | [] => None
+    end
+  else type_step ys.
+
+Definition login_opt (tls : bool) (t : ttype) (u pw : bytes) (xs : list reply) : option (list exchange) :=
+  match xs with
+  | [] => None
+  | x1 :: xs1 =>
+      if code x1 =? 331 then
+        match xs1 with
+        | x2 :: xs2 => option_map (fun l => (USER_ ++ SP :: u, x1) :: (PASS_ ++ SP :: pw, x2) :: l) (tail_opt tls t x2 xs2)
+        | [] => None
+        end
+      else option_map (fun l => (USER_ ++ SP :: u, x1) :: l) (tail_opt tls t x1 xs1)
+  end.
+
+(* where it is defined it is the table of Login_Proofs.v *)
+Lemma tail_opt_table tls t r ys ex : tail_opt tls t r ys = Some ex -> login_tail tls t r ys = ex.
+Proof.
+  unfold tail_opt, login_tail. destruct (is_negative r); [intro H; inversion H; reflexivity|].
+  destruct tls.
+  - destruct ys as [|y3 ys3]; [discriminate|]. destruct (is_negative y3); [intro H; inversion H; reflexivity|].
+    destruct ys3 as [|y4 ys4]; [discriminate|]. destruct (is_negative y4); [intro H; inversion H; reflexivity|].
+    destruct ys4 as [|y5 ys5]; [discriminate|]. intro H; inversion H; reflexivity.
+  - destruct ys as [|y5 ys5]; [discriminate|]. intro H; inversion H; reflexivity.
+Qed.
+Lemma login_opt_table tls t u pw xs ex : login_opt tls t u pw xs = Some ex -> login_exchange tls t u pw xs = ex.
+Proof.
+  unfold login_opt, login_exchange. destruct xs as [|x1 xs1]; [discriminate|].
+  destruct (code x1 =? 331).
+  - destruct xs1 as [|x2 xs2]; [discriminate|]. destruct (tail_opt tls t x2 xs2) as [l|] eqn:T; [|discriminate].
+    intro H; inversion H. rewrite (tail_opt_table _ _ _ _ _ T). reflexivity.
+  - destruct (tail_opt tls t x1 xs1) as [l|] eqn:T; [|discriminate].
+    intro H; inversion H. rewrite (tail_opt_table _ _ _ _ _ T). reflexivity.
+Qed.
+
+Lemma simple_all_app_inv rs xs : simple_all rs xs -> length rs = length xs.
+Proof. induction 1; cbn; congruence. Qed.
+
+(* the tail of the login program on a script prefix that is exactly what it consumes *)
+Lemma login_tail_run_exact (k : list reply -> prog) cfg w r acc rs ys rest ex n :
+  insync w (rs ++ rest) -> simple_all rs ys -> tail_opt (c_tls cfg) (c_type cfg) r ys = Some ex -> length ex = length ys ->
+  (n <= length (w_trace w))%nat ->
+  let after_pass :=
+      (if is_negative r then k acc else
+       if c_tls cfg then
+         process_raw PBSZ_0 (fun r3 => if is_negative r3 then k (acc ++ [r3]) else
+         process_raw PROT_P (fun r4 => if is_negative r4 then k (acc ++ [r3; r4]) else
+           process_command TYPE_ (Some (type_arg (c_type cfg))) (fun r5 => k ((acc ++ [r3; r4]) ++ [r5]))))
+       else process_command TYPE_ (Some (type_arg (c_type cfg))) (fun r5 => k (acc ++ [r5]))) in
+  exists w1, run after_pass w = run (k (acc ++ map snd ex)) w1 /\ insync w1 rest /\
+    w_cfg w1 = w_cfg w /\ (n <= length (w_trace w1))%nat /\ wire_since n w1 = wire_since n w ++ exchange_wire ex.
+Proof.
+  intros Hi Hall Hex Hlen Hn. cbv zeta. unfold tail_opt in Hex.
+  assert (Targ : arg_ok (Some (type_arg (c_type cfg)))) by (cbn; destruct (c_type cfg); reflexivity).
+  destruct (is_negative r) eqn:Nr.
+  { inversion Hex; subst ex. destruct ys; [|discriminate]. inversion Hall; subst. cbn [app] in Hi.
+    exists w. cbn [map exchange_wire flat_map]. rewrite !app_nil_r. auto. }
+  destruct (c_tls cfg) eqn:Tl.
+  - destruct Hall as [|r3 y3 rs3 ys3 S3 Hall3]; [discriminate|]. cbn [app] in Hi.
+    destruct (sync_step_raw PBSZ_0 (fun r3 => if is_negative r3 then k (acc ++ [r3]) else
+         process_raw PROT_P (fun r4 => if is_negative r4 then k (acc ++ [r3; r4]) else
+           process_command TYPE_ (Some (type_arg (c_type cfg))) (fun r5 => k ((acc ++ [r3; r4]) ++ [r5]))))
+         w r3 (rs3 ++ rest) y3 n Hi S3 Hn) as (w3 & E3 & I3 & C3 & L3 & W3).
+    rewrite E3. destruct (is_negative y3) eqn:N3.
+    { inversion Hex; subst ex. destruct ys3; [|discriminate]. inversion Hall3; subst. cbn [app] in I3.
+      exists w3. cbn [map snd]. split; [reflexivity|]. split; [exact I3|]. split; [exact C3|]. split; [exact L3|].
+      rewrite W3. reflexivity. }
+    destruct Hall3 as [|r4 y4 rs4 ys4 S4 Hall4]; [discriminate|]. cbn [app] in I3.
+    destruct (sync_step_raw PROT_P (fun r4 => if is_negative r4 then k (acc ++ [y3; r4]) else
+           process_command TYPE_ (Some (type_arg (c_type cfg))) (fun r5 => k ((acc ++ [y3; r4]) ++ [r5])))
+         w3 r4 (rs4 ++ rest) y4 n I3 S4 L3) as (w4 & E4 & I4 & C4 & L4 & W4).
+    rewrite E4. destruct (is_negative y4) eqn:N4.
+    { inversion Hex; subst ex. destruct ys4; [|discriminate]. inversion Hall4; subst. cbn [app] in I4.
+      exists w4. cbn [map snd]. split; [reflexivity|]. split; [exact I4|]. split; [congruence|]. split; [exact L4|].
+      rewrite W4, W3, <- app_assoc. reflexivity. }
+    destruct Hall4 as [|r5 y5 rs5 ys5 S5 Hall5]; [discriminate|]. cbn [app option_map] in I4, Hex.
+    inversion Hex; subst ex. destruct ys5; [|discriminate]. inversion Hall5; subst. cbn [app] in I4.
+    destruct (sync_step TYPE_ (Some (type_arg (c_type cfg))) (fun r5 => k ((acc ++ [y3; y4]) ++ [r5]))
+         w4 r5 rest y5 n I4 S5 Targ L4) as (w5 & E5 & I5 & C5 & L5 & W5).
+    rewrite E5. exists w5. cbn [map snd]. split; [rewrite <- app_assoc; reflexivity|].
+    split; [exact I5|]. split; [congruence|]. split; [exact L5|].
+    rewrite W5, W4, W3, <- !app_assoc. reflexivity.
+  - destruct Hall as [|r5 y5 rs5 ys5 S5 Hall5]; [discriminate|]. inversion Hex; subst ex.
+    destruct ys5; [|discriminate]. inversion Hall5; subst. cbn [app] in Hi.
+    destruct (sync_step TYPE_ (Some (type_arg (c_type cfg))) (fun r5 => k (acc ++ [r5]))
+         w r5 rest y5 n Hi S5 Targ Hn) as (w5 & E5 & I5 & C5 & L5 & W5).
+    rewrite E5. exists w5. cbn [map snd]. split; [reflexivity|]. split; [exact I5|]. split; [exact C5|].
+    split; [exact L5|]. rewrite W5. reflexivity.
+Qed.
+
+(* login on a script prefix that is exactly what the table consumes; whatever follows in the script is untouched *)
+Theorem login_call_exact w u pw rs xs rest ex :
+  insync w (rs ++ rest) -> simple_all rs xs -> has_crlf u = false -> has_crlf pw = false ->
+  login_opt (c_tls (w_cfg w)) (c_type (w_cfg w)) u pw xs = Some ex -> length ex = length xs ->
+  exists w', step w (ALogin u pw) = (OReturn (RvReplies (map snd ex)), w') /\
+    insync w' rest /\ w_cfg w' = w_cfg w /\ wire_since (length (w_trace w)) w' = exchange_wire ex.
+Proof.
+  intros Hi Hall Hu Hpw Hex Hlen.
+  rewrite step_login_unfold. unfold op_login, process_login.
+  rewrite run_checkarg, Hpw, run_getcfg.
+  set (w0 := set_io w no_io).
+  assert (Hi0 : insync w0 (rs ++ rest)) by exact Hi.
+  change (w_cfg w0) with (w_cfg w).
+  set (cfg := w_cfg w) in *.
+  assert (Hn0 : (length (w_trace w) <= length (w_trace w0))%nat) by apply Nat.le_refl.
+  assert (W0 : wire_since (length (w_trace w)) w0 = []).
+  { unfold wire_since. change (w_trace w0) with (w_trace w). rewrite skipn_all. reflexivity. }
+  unfold login_opt in Hex.
+  destruct Hall as [|r1 x1 rs1 xs1 S1 Hall1]; [discriminate|]. cbn [app] in Hi0.
+  match goal with |- context [process_command USER_ (Some u) ?K] => set (K1 := K) end.
+  destruct (sync_step USER_ (Some u) K1 w0 r1 (rs1 ++ rest) x1 (length (w_trace w)) Hi0 S1 Hu Hn0) as (w1 & E1 & I1 & C1 & L1 & W1).
+  rewrite E1. unfold K1. clear K1 E1.
+  destruct (code x1 =? 331) eqn:E331.
+  - destruct Hall1 as [|r2 x2 rs2 xs2 S2 Hall2]; [discriminate|]. cbn [app] in I1.
+    destruct (tail_opt (c_tls cfg) (c_type cfg) x2 xs2) as [l|] eqn:T; [|discriminate]. inversion Hex; subst ex.
+    match goal with |- context [process_command PASS_ (Some pw) ?K] => set (K2 := K) end.
+    destruct (sync_step PASS_ (Some pw) K2 w1 r2 (rs2 ++ rest) x2 (length (w_trace w)) I1 S2 Hpw L1) as (w2 & E2 & I2 & C2 & L2 & W2).
+    rewrite E2. unfold K2. clear K2 E2.
+    assert (Hl : length l = length xs2) by (cbn in Hlen; congruence).
+    destruct (login_tail_run_exact (fun acc' => Ret (RvReplies acc')) cfg w2 x2 ([] ++ [x1; x2]) rs2 xs2 rest l (length (w_trace w))
+                I2 Hall2 T Hl L2) as (w3 & E3 & I3 & C3 & L3 & W3).
+    cbv zeta in E3. rewrite E3, run_ret. exists w3.
+    split; [reflexivity|]. split; [exact I3|]. split; [rewrite C3, C2, C1; reflexivity|].
+    rewrite W3, W2, W1, W0. reflexivity.
+  - destruct (tail_opt (c_tls cfg) (c_type cfg) x1 xs1) as [l|] eqn:T; [|discriminate]. inversion Hex; subst ex.
+    assert (Hl : length l = length xs1) by (cbn in Hlen; congruence).
+    destruct (login_tail_run_exact (fun acc' => Ret (RvReplies acc')) cfg w1 x1 ([] ++ [x1]) rs1 xs1 rest l (length (w_trace w))
+                I1 Hall1 T Hl L1) as (w3 & E3 & I3 & C3 & L3 & W3).
+    cbv zeta in E3. rewrite E3, run_ret. exists w3.
+    split; [reflexivity|]. split; [exact I3|]. split; [rewrite C3, C1; reflexivity|].
+    rewrite W3, W1, W0. reflexivity.
+Qed.
